@@ -13,6 +13,7 @@ lg_size : u8 , num_valid_bits : u8 , num_items : u32 , slots : Vec < u32 > , }
 
 
 
+
 spec fn pholds(ss: Seq<u32>, item: u32) -> bool { exists|i: int| 0 <= i < ss.len() && ss[i] == item }
 spec fn pdistinct(ss: Seq<u32>) -> bool { forall|i: int, j: int| 0 <= i < ss.len() && 0 <= j < ss.len() && i != j && ss[i] != EMPTY ==> ss[i] != ss[j] }
 spec fn pocc(ss: Seq<u32>) -> Set<int> { Set::range(0, ss.len() as int).filter(|i: int| ss[i] != EMPTY) }
@@ -22,6 +23,7 @@ impl PairTable {
     spec fn items(&self) -> ISet<u32> { ISet::new(|c: u32| c != EMPTY && pholds(self.slots@, c)) }
     fn slots ( & self ) -> ( r : & [ u32 ] ) ensures r @ == self . slots @ {
 & self . slots }
+
 
 
 }
@@ -185,6 +187,7 @@ lemma_or_assoc ( d0 [ i ] , fold_prefix ( wm , rows , i , src_row as int ) , wm 
 
 
 
+
 fn or_table_into_matrix ( dst_matrix : & mut [ u64 ] , dst_lg_k : u8 , src_table : & PairTable ) requires dst_lg_k <= 26 , old ( dst_matrix ) @ . len ( ) == pow2 ( dst_lg_k as nat ) ensures final ( dst_matrix ) @ . len ( ) == old ( dst_matrix ) @ . len ( ) ,
 /*@C06.or_table*/ forall | i : int , c : int | 0 <= i < final ( dst_matrix ) @ . len ( ) && 0 <= c < 64 ==> # [ trigger ] bit ( final ( dst_matrix ) @ [ i ] , c ) == ( bit ( old ( dst_matrix ) @ [ i ] , c ) || exists | x : u32 | src_table . items ( ) . contains ( x ) && # [ trigger ] hits ( x , old ( dst_matrix ) @ . len ( ) as int , i , c ) ) {
 proof {
@@ -245,6 +248,7 @@ assert ( src_table . items ( ) . contains ( x ) && hits ( x , rows , i , c ) ) ;
 
 
 
+
 fn or_matrix_into_matrix ( dst_matrix : & mut [ u64 ] , dst_lg_k : u8 , src_matrix : & [ u64 ] , src_lg_k : u8 ) requires dst_lg_k <= src_lg_k <= 26 , old ( dst_matrix ) @ . len ( ) == pow2 ( dst_lg_k as nat ) , src_matrix @ . len ( ) == pow2 ( src_lg_k as nat ) ensures final ( dst_matrix ) @ . len ( ) == old ( dst_matrix ) @ . len ( ) ,
 /*@C06.or_matrix*/ forall | i : int | 0 <= i < final ( dst_matrix ) @ . len ( ) ==> # [ trigger ] final ( dst_matrix ) @ [ i ] == old ( dst_matrix ) @ [ i ] | fold_prefix ( src_matrix @ , old ( dst_matrix ) @ . len ( ) as int , i , src_matrix @ . len ( ) as int ) {
 assert! ( dst_lg_k <= src_lg_k ) ;
@@ -276,6 +280,7 @@ lemma_or_assoc ( d0 [ i ] , fold_prefix ( src_matrix @ , rows , i , src_row as i
 }
 }
 }
+
 
 
 // ================= probe.vx =================
@@ -418,6 +423,7 @@ struct CpcSketch {
 lg_k : u8 , seed : u64 , seed_hash : u16 , first_interesting_column : u8 , num_coupons : u32 , surprising_value_table : Option < PairTable > , window_offset : u8 , sliding_window : Vec < u8 > , merge_flag : bool , kxp : f64 , hip_est_accum : f64 , }
 
 
+
 spec fn bit8(x: u8, c: int) -> bool { (x >> (c as u8)) & 1 == 1 }
 spec fn dco(lg_k: u8, c: u32) -> int { let k = pow2(lg_k as nat) as int; if 8 * (c as int) < 19 * k { 0 } else { (8 * (c as int) - 19 * k) / (8 * k) } }
 impl CpcSketch {
@@ -464,15 +470,18 @@ impl CpcSketch {
     fn lg_k ( & self ) -> ( r : u8 ) ensures r == self . lg_k {
 self . lg_k }
 
-    fn is_empty(&self) -> (r: bool) ensures r == (self.num_coupons == 0) { self.num_coupons == 0 }
 
-    fn flavor(&self) -> (r: Flavor) requires 4 <= self.lg_k <= 26 ensures r == flavor_spec(self.lg_k, self.num_coupons) {
-        determine_flavor(self.lg_k, self.num_coupons)
-    }
+    fn is_empty ( & self ) -> ( r : bool ) ensures r == ( self . num_coupons == 0 ) {
+self . num_coupons == 0 }
 
-    fn surprising_value_table(&self) -> (r: &PairTable) requires self.surprising_value_table is Some ensures *r == self.surprising_value_table->0 {
-        self.surprising_value_table.as_ref().expect("")
-    }
+
+    fn flavor ( & self ) -> ( r : Flavor ) requires 4 <= self . lg_k <= 26 ensures r == flavor_spec ( self . lg_k , self . num_coupons ) {
+determine_flavor ( self . lg_k , self . num_coupons ) }
+
+
+    fn surprising_value_table ( & self ) -> ( r : & PairTable ) requires self . surprising_value_table is Some ensures * r == self . surprising_value_table -> 0 {
+self . surprising_value_table . as_ref ( ) . expect ( "" ) }
+
 
     // opaque (seed hash, float kxp): a fresh EMPTY sketch
     #[verifier::external_body]
@@ -632,6 +641,7 @@ assert ( table . items ( ) . contains ( x ) && hits ( x , kk , r , c ) ) ;
 }
 
 
+
 proof fn lemma_hit_upto_step(ss: Seq<u32>, rows: int, sd: int, t: int, r: int, c: int)
   requires 0 <= t
   ensures hit_upto(ss, rows, sd, t + 1, r, c) == (hit_upto(ss, rows, sd, t, r, c)
@@ -692,6 +702,7 @@ proof fn lemma_fold(x: u32, lg: u8)
 enum Flavor {
 Empty , Sparse , Hybrid , Pinned , Sliding , }
 
+
 // flavor_spec and the contract of determine_flavor: copied VERBATIM from contracts/cpc_update.rs, where the body is verified
 spec fn flavor_spec(lg_k: u8, c: u32) -> Flavor {
     let k = pow2(lg_k as nat) as int; let c = c as int;
@@ -706,8 +717,10 @@ fn determine_flavor(lg_k: u8, num_coupons: u32) -> (r: Flavor)
 enum UnionState {
 Accumulator ( CpcSketch ) , BitMatrix ( Vec < u64 > ) , }
 
+
 struct CpcUnion {
 lg_k : u8 , seed : u64 , state : UnionState , }
+
 
 impl CpcUnion {
     spec fn k(&self) -> int { pow2(self.lg_k as nat) as int }
@@ -732,95 +745,107 @@ impl CpcUnion {
         }
     }
 
-    fn reduce_k(&mut self, new_lg_k: u8)
-      requires old(self).uwf(), 4 <= new_lg_k < old(self).lg_k, old(self).acc_reducible(new_lg_k),
-      ensures final(self).uwf(), final(self).lg_k == new_lg_k, final(self).seed == old(self).seed,
-        /*@C06.reduce_k.fold*/ forall|i: int, c: int| 0 <= i < final(self).k() && 0 <= c < 64 ==>
-            final(self).ubit(i, c) == (exists|r: int| 0 <= r < old(self).k() && r % final(self).k() == i && #[trigger] old(self).ubit(r, c)),
-    {
-        let ghost k0 = self.k();
-        let ghost k1 = pow2(new_lg_k as nat) as int;
-        proof { lemma_k26(self.lg_k); lemma_k26(new_lg_k); lemma_shl_us(new_lg_k); }
-        match &mut self.state {
-            UnionState::Accumulator(sketch) => {
-                let ghost s0 = *sketch;
-                if sketch.is_empty() {
-                    self.lg_k = new_lg_k;
-                    self.state = UnionState::Accumulator(CpcSketch::with_seed(new_lg_k, self.seed));
-                    return;
-                }
+    fn reduce_k ( & mut self , new_lg_k : u8 ) requires old ( self ) . uwf ( ) , 4 <= new_lg_k < old ( self ) . lg_k , old ( self ) . acc_reducible ( new_lg_k ) , ensures final ( self ) . uwf ( ) , final ( self ) . lg_k == new_lg_k , final ( self ) . seed == old ( self ) . seed ,
+/*@C06.reduce_k.fold*/ forall | i : int , c : int | 0 <= i < final ( self ) . k ( ) && 0 <= c < 64 ==> final ( self ) . ubit ( i , c ) == ( exists | r : int | 0 <= r < old ( self ) . k ( ) && r % final ( self ) . k ( ) == i && # [ trigger ] old ( self ) . ubit ( r , c ) ) , {
+let ghost k0 = self . k ( ) ;
+let ghost k1 = pow2 ( new_lg_k as nat ) as int ;
+proof {
+lemma_k26 ( self . lg_k ) ;
+lemma_k26 ( new_lg_k ) ;
+lemma_shl_us ( new_lg_k ) ;
+}
+match & mut self . state {
+UnionState :: Accumulator ( sketch ) => {
+let ghost s0 = * sketch ;
+if sketch . is_empty ( ) {
+self . lg_k = new_lg_k ;
+self . state = UnionState :: Accumulator ( CpcSketch :: with_seed ( new_lg_k , self . seed ) ) ;
+return ;
+}
+let mut new_sketch = CpcSketch :: with_seed ( new_lg_k , self . seed ) ;
+let ghost e = new_sketch ;
+proof {
+assert ( s0 . surprising_value_table -> 0 . num_items == s0 . num_coupons ) ;
+}
+walk_table_updating_sketch ( & mut new_sketch , sketch . surprising_value_table ( ) ) ;
+let final_new_flavor = new_sketch . flavor ( ) ;
+proof {
+lemma_occupied ( s0 . surprising_value_table -> 0 ) ;
+let x = choose | x : u32 | s0 . surprising_value_table -> 0 . items ( ) . contains ( x ) ;
+lemma_row_col_us ( x ) ;
+let i = ( ( x >> 6 ) as int ) % k1 ;
+let c = ( x & 63 ) as int ;
+lemma_mod_bound ( ( x >> 6 ) as int , k1 ) ;
+assert ( hits ( x , k1 , i , c ) ) ;
+assert ( new_sketch . mbit ( i , c ) ) ;
+lemma_rc_parts ( i , c ) ;
+}
+assert! ( final_new_flavor != Flavor :: Empty ) ;
+proof {
+assert forall | i : int , c : int | 0 <= i < k1 && 0 <= c < 64 implies
+/*@C06.reduce_k.fold*/ new_sketch . mbit ( i , c ) == ( exists | r : int | 0 <= r < k0 && r % k1 == i && # [ trigger ] old ( self ) . ubit ( r , c ) ) by {
+assert ( forall | r : int | old ( self ) . ubit ( r , c ) == s0 . mbit ( r , c ) ) ;
+assert ( ! e . mbit ( i , c ) ) ;
+if exists | x : u32 | s0 . tbl ( ) . contains ( x ) && # [ trigger ] hits ( x , k1 , i , c ) {
+let x = choose | x : u32 | s0 . tbl ( ) . contains ( x ) && # [ trigger ] hits ( x , k1 , i , c ) ;
+lemma_rc_compose ( x ) ;
+lemma_row_col_us ( x ) ;
+let r = ( x >> 6 ) as int ;
+assert ( 0 <= r < k0 && r % k1 == i && old ( self ) . ubit ( r , c ) ) ;
+}
+if exists | r : int | 0 <= r < k0 && r % k1 == i && # [ trigger ] old ( self ) . ubit ( r , c ) {
+let r = choose | r : int | 0 <= r < k0 && r % k1 == i && # [ trigger ] old ( self ) . ubit ( r , c ) ;
+lemma_rc_parts ( r , c ) ;
+assert ( s0 . tbl ( ) . contains ( rc ( r , c ) ) && hits ( rc ( r , c ) , k1 , i , c ) ) ;
+}
+}
+}
+if final_new_flavor == Flavor :: Sparse {
+self . lg_k = new_lg_k ;
+self . state = UnionState :: Accumulator ( new_sketch ) ;
+return ;
+}
+self . lg_k = new_lg_k ;
+self . state = UnionState :: BitMatrix ( new_sketch . build_bit_matrix ( ) ) ;
+proof {
+assert forall | i : int , c : int | 0 <= i < k1 && 0 <= c < 64 implies
+/*@C06.reduce_k.fold*/ self . ubit ( i , c ) == ( exists | r : int | 0 <= r < k0 && r % k1 == i && # [ trigger ] old ( self ) . ubit ( r , c ) ) by {
+assert ( self . ubit ( i , c ) == new_sketch . mbit ( i , c ) ) ;
+assert ( new_sketch . mbit ( i , c ) == ( exists | r : int | 0 <= r < k0 && r % k1 == i && # [ trigger ] old ( self ) . ubit ( r , c ) ) ) ;
+}
+}
+}
+UnionState :: BitMatrix ( matrix ) => {
+let ghost m0 = matrix @ ;
+let new_k = 1 << new_lg_k ;
+let mut new_matrix = vec! [ 0 ;
+new_k ] ;
+let ghost z = new_matrix @ ;
+or_matrix_into_matrix ( & mut new_matrix , new_lg_k , matrix , self . lg_k ) ;
+proof {
+assert forall | i : int , c : int | 0 <= i < k1 && 0 <= c < 64 implies
+/*@C06.reduce_k.fold*/ bit ( new_matrix @ [ i ] , c ) == ( exists | r : int | 0 <= r < k0 && r % k1 == i && # [ trigger ] old ( self ) . ubit ( r , c ) ) by {
+assert ( forall | r : int | old ( self ) . ubit ( r , c ) == bit ( m0 [ r ] , c ) ) ;
+if fold_hit ( m0 , k1 , i , k0 , c ) {
+let r = choose | r : int | 0 <= r < k0 && r % k1 == i && # [ trigger ] bit ( m0 [ r ] , c ) ;
+assert ( 0 <= r < k0 && r % k1 == i && old ( self ) . ubit ( r , c ) ) ;
+}
+if exists | r : int | 0 <= r < k0 && r % k1 == i && # [ trigger ] old ( self ) . ubit ( r , c ) {
+let r = choose | r : int | 0 <= r < k0 && r % k1 == i && # [ trigger ] old ( self ) . ubit ( r , c ) ;
+assert ( 0 <= r < k0 && r % k1 == i && bit ( m0 [ r ] , c ) ) ;
+}
+lemma_fold_bit ( m0 , k1 , i , k0 , c ) ;
+let f = fold_prefix ( m0 , k1 , i , k0 ) ;
+assert ( z [ i ] == 0u64 ) ;
+assert ( 0u64 | f == f ) by ( bit_vector ) ;
+}
+}
+self . lg_k = new_lg_k ;
+self . state = UnionState :: BitMatrix ( new_matrix ) ;
+}
+}
+}
 
-                let mut new_sketch = CpcSketch::with_seed(new_lg_k, self.seed);
-                let ghost e = new_sketch;
-                proof { assert(s0.surprising_value_table->0.num_items == s0.num_coupons); }
-                walk_table_updating_sketch(&mut new_sketch, sketch.surprising_value_table());
-
-                let final_new_flavor = new_sketch.flavor();
-                proof {
-                    // SV table had to have something in it: some bit of the folded matrix is set, so the new sketch is not empty
-                    lemma_occupied(s0.surprising_value_table->0);
-                    let x = choose|x: u32| s0.surprising_value_table->0.items().contains(x);
-                    lemma_row_col_us(x);
-                    let i = ((x >> 6) as int) % k1; let c = (x & 63) as int;
-                    lemma_mod_bound((x >> 6) as int, k1);
-                    assert(hits(x, k1, i, c));
-                    assert(new_sketch.mbit(i, c));
-                    lemma_rc_parts(i, c);
-                }
-                // SV table had to have something in it
-                assert_ne!(final_new_flavor, Flavor::Empty);
-                proof {
-                    assert forall|i: int, c: int| 0 <= i < k1 && 0 <= c < 64 implies
-                        /*@C06.reduce_k.fold*/ new_sketch.mbit(i, c) == (exists|r: int| 0 <= r < k0 && r % k1 == i && #[trigger] old(self).ubit(r, c)) by {
-                        assert(forall|r: int| old(self).ubit(r, c) == s0.mbit(r, c));
-                        assert(!e.mbit(i, c));
-                        if exists|x: u32| s0.tbl().contains(x) && #[trigger] hits(x, k1, i, c) {
-                            let x = choose|x: u32| s0.tbl().contains(x) && #[trigger] hits(x, k1, i, c);
-                            lemma_rc_compose(x); lemma_row_col_us(x);
-                            let r = (x >> 6) as int;
-                            assert(0 <= r < k0 && r % k1 == i && old(self).ubit(r, c));
-                        }
-                        if exists|r: int| 0 <= r < k0 && r % k1 == i && #[trigger] old(self).ubit(r, c) {
-                            let r = choose|r: int| 0 <= r < k0 && r % k1 == i && #[trigger] old(self).ubit(r, c);
-                            lemma_rc_parts(r, c);
-                            assert(s0.tbl().contains(rc(r, c)) && hits(rc(r, c), k1, i, c));
-                        }
-                    }
-                }
-                if final_new_flavor == Flavor::Sparse {
-                    self.lg_k = new_lg_k;
-                    self.state = UnionState::Accumulator(new_sketch);
-                    return;
-                }
-
-                // the new sketch has graduated beyond sparse, so convert to bitMatrix
-                self.lg_k = new_lg_k;
-                self.state = UnionState::BitMatrix(new_sketch.build_bit_matrix());
-                proof { assert forall|i: int, c: int| 0 <= i < k1 && 0 <= c < 64 implies self.ubit(i, c) == new_sketch.mbit(i, c) by { } }
-            }
-            UnionState::BitMatrix(matrix) => {
-                let ghost m0 = matrix@;
-                let new_k = 1 << new_lg_k;
-                let mut new_matrix = vec![0; new_k];
-                let ghost z = new_matrix@;
-                or_matrix_into_matrix(&mut new_matrix, new_lg_k, matrix, self.lg_k);
-                proof {
-                    assert forall|i: int, c: int| 0 <= i < k1 && 0 <= c < 64 implies
-                        /*@C06.reduce_k.fold*/ bit(new_matrix@[i], c) == (exists|r: int| 0 <= r < k0 && r % k1 == i && #[trigger] old(self).ubit(r, c)) by {
-                        assert(forall|r: int| old(self).ubit(r, c) == bit(m0[r], c));
-                        if fold_hit(m0, k1, i, k0, c) { let r = choose|r: int| 0 <= r < k0 && r % k1 == i && #[trigger] bit(m0[r], c); assert(0 <= r < k0 && r % k1 == i && old(self).ubit(r, c)); }
-                        if exists|r: int| 0 <= r < k0 && r % k1 == i && #[trigger] old(self).ubit(r, c) { let r = choose|r: int| 0 <= r < k0 && r % k1 == i && #[trigger] old(self).ubit(r, c); assert(0 <= r < k0 && r % k1 == i && bit(m0[r], c)); }
-                        lemma_fold_bit(m0, k1, i, k0, c);
-                        let f = fold_prefix(m0, k1, i, k0);
-                        assert(z[i] == 0u64);
-                        assert(0u64 | f == f) by (bit_vector);
-                    }
-                }
-                self.lg_k = new_lg_k;
-                self.state = UnionState::BitMatrix(new_matrix);
-            }
-        }
-    }
 }
 
 // a table with a non-zero item count holds some item
